@@ -84,7 +84,7 @@ func (p *Pool) take() (x any, ok bool) {
 		p.items[p.n] = nil
 		return x, true
 	}
-	x = p.items[0] // oldest first (the item migrated through the shared queue)
+	x = p.items[0]             // oldest first (the item migrated through the shared queue)
 	for i := 1; i < p.n; i++ { // not copy(): the runtime's slice copy reports to the race detector whatever the caller is marked
 		p.items[i-1] = p.items[i]
 	}
